@@ -13,10 +13,17 @@ Cases == JsonDeserialize("cases.json")
 Init == tid \in 1..Len(Cases)
 Next == UNCHANGED tid
 
+IsAbsent(iv) == iv[1] = ABSENT
+Entries(c) == UNION { { <<t, i>> : i \in 1..Len(c.agp.w[t]) } : t \in Terms(c.agp) }
+ExpGrad(c, t, i) == LET dz == DZNonRec(c.agp, t, i)[c.agp.start] IN FoldSet(LAMBDA ea, acc: acc + dz[ea], 0, ExtAssts(c.agp, c.agp.start))
+GradOK(c, r) == \A e \in Entries(c) : LET o == r.grads[e[1]][e[2]] x == ExpGrad(c, e[1], e[2]) IN
+                   IF IsAbsent(o) THEN x = 0 ELSE o[1] <= x /\ x <= o[2]
+
 RunClause(c, z, r) ==
   IF r.out # "ok" THEN "Raised"
   ELSE IF DOMAIN r.res # Nts(c.agp) THEN "EveryNonterminalHasAValue"
   ELSE IF \E X \in Nts(c.agp) : ~TensorEq(c.agp, X, r.res[X], z[r.sr][X]) THEN "ResultIndependentOfPresentation"
+  ELSE IF r.hasgrad /\ ~GradOK(c, r) THEN "GradientIndependentOfPresentation"
   ELSE "ok"
 
 PermTuple(c, X, ea) == [i \in DOMAIN ea |-> c.perm[c.ag.els[X].type[i]][ea[i] + 1]]
